@@ -99,9 +99,10 @@ static std::string program(const Tree &t, const int32_t v[3], const int k[3], in
   case 7: body = "0(pick(1, 2) + (" + e + "))"; break;
   case 9: body = "if " + e + " then 0(11) else 0(22)"; break;                 // the expression itself is the condition (zero / non-zero)
   case 10: body = "while " + e + " do { r[0] := 5; 0(33) }; 0(44)"; break;
+  case 11: body = "0(p3(" + e + ", pick(2, 5), " + e + "))"; break;           // the same expression as first and third actual around an actual that contains a call
   default: body = "r[1] := " + e + "; 0(r[1] + cnt)"; break;   // 8: the value plus 1000 for every effectful call that was made
   }
-  return gdecl + "array r[2]; array w[8]; var cnt;\nfunc pick(val a, val b) is return b - a\nfunc fx(val v) is { cnt := cnt + 1000; return v }\nproc t(" + formals + ") is " + ldecl + "\n{ cnt := 0; " + init + body + " }\nproc main() is t(" + actuals + ")\n";
+  return gdecl + "array r[2]; array w[8]; var cnt;\nfunc pick(val a, val b) is return b - a\nfunc fx(val v) is { cnt := cnt + 1000; return v }\nfunc p3(val a, val b, val c) is return (a + a) + ((b + b) + (b + c))\nproc t(" + formals + ") is " + ldecl + "\n{ cnt := 0; " + init + body + " }\nproc main() is t(" + actuals + ")\n";
 }
 
 int main(int argc, char **argv) {
@@ -147,13 +148,13 @@ int main(int argc, char **argv) {
       if (ctx.expired()) { st.add("groups_skipped_deadline"); continue; }
       int ti; int32_t v[3] = {0, 0, 0}; decode(i, ti, v); const Tree &t = T[ti];
       int flags = 0; int32_t exact = evalTree(t, v, flags);
-      int ctxN = 11;
+      int ctxN = 12;
       for (int cx = 0; cx < ctxN; cx++) {
         // subscript contexts only where the exact value is a valid index; boolean-typed results are not used as subscripts, actuals of arithmetic or comparison operands
         if ((cx == 2 || cx == 3 || cx == 6) && (t.resBool || (flags & ~0) != 0 || exact < 0 || exact > 7)) continue;
         if ((cx == 4 || cx == 5 || cx == 7) && t.resBool) continue;
         if (cx == 8) continue;   // the effect context has its own loop below
-        if (cx >= 9 && !ctx.thorough() && t.nleaves == 3 && (i % 2) != (uint64_t)(cx % 2)) continue;   // quick: 3-leaf groups alternate between the two condition contexts
+        if (cx >= 9 && !ctx.thorough() && t.nleaves == 3 && (i % 3) != (uint64_t)(cx % 3)) continue;   // quick: 3-leaf groups take one of the three last contexts in turn
         if (cx >= 2 && !ctx.thorough() && t.nleaves == 3 && (i % 3) != (uint64_t)(cx % 3) && cx < 9) continue;   // quick: each 3-leaf group takes a third of the extra contexts (the two condition contexts always run)
         int kr[3] = {3, 3, 3};
         std::string rsrc = program(t, v, kr, cx, exact); int32_t base = 0; std::string w;
@@ -213,7 +214,7 @@ int main(int argc, char **argv) {
   rep.evaluations = c["programs"]; rep.states = c["groups"]; rep.transitions = c["programs"]; rep.validated = c["programs"];
   rep.nontrivial = c["programs_with_compile_time_leaves"];
   rep.rule = "every expression tree with <=2 operators over X's 10 binary and 2 unary operators (boolean-typed operands under and/or/~) x every valuation of its leaves over the corner constants "
-             "x 8 contexts (exit argument, stored element, subscript of a read and of a write and next to a run-time index where the value is a valid index, actual of a call, operand of a comparison, operand next to a call, the condition of an if and of a while; and one more in which any subset of the leaves are calls with a counted effect while the others are constants or variables) x every assignment of a kind to each leaf from {literal, global val, local val | local var, global var, val formal}; "
+             "x 8 contexts (exit argument, stored element, subscript of a read and of a write and next to a run-time index where the value is a valid index, actual of a call, operand of a comparison, operand next to a call, the condition of an if and of a while, first and third actual around a call-containing actual; and one more in which any subset of the leaves are calls with a counted effect while the others are constants or variables) x every assignment of a kind to each leaf from {literal, global val, local val | local var, global var, val formal}; "
              "each variant must give the same exit value as the all-run-time variant, which itself must equal two's-complement evaluation (and RefX where defined); distinct by construction; "
              "non-trivial = programs with at least one compile-time leaf";
   rep.bounds.kv("values", (uint64_t)V.size()).kv("kinds", (uint64_t)KINDS.size()).kv("trees", (uint64_t)T.size()).kv("max_operators", 2);
